@@ -5,12 +5,13 @@ import os, sys, json, subprocess
 sys.path.insert(0, '/verif')
 import props
 S = '/verif/seeded'
+REPO = os.environ.get('VERIF_REPO', '/repo')
 ids = sys.argv[1:] or sorted(os.listdir(S))
-assert subprocess.run(['git', '-C', '/repo', 'status', '--porcelain'], capture_output=True, text=True).stdout.strip() == '', "/repo not clean"
+assert subprocess.run(['git', '-C', REPO, 'status', '--porcelain'], capture_output=True, text=True).stdout.strip() == '', "/repo not clean"
 for sid in ids:
     d = os.path.join(S, sid)
     meta = json.load(open(os.path.join(d, 'meta.json')))
-    r = subprocess.run(['git', '-C', '/repo', 'apply', os.path.join(d, 'patch.diff')], capture_output=True, text=True)
+    r = subprocess.run(['git', '-C', REPO, 'apply', os.path.join(d, 'patch.diff')], capture_output=True, text=True)
     if r.returncode:
         print(sid, 'patch does not apply', r.stderr[:200]); continue
     try:
@@ -26,4 +27,4 @@ for sid in ids:
         json.dump(meta, open(os.path.join(d, 'meta.json'), 'w'), indent=1)
         print(sid, 'caught by', [c['check'] for c in caught], 'undecided', undec, flush=True)
     finally:
-        subprocess.run(['git', '-C', '/repo', 'checkout', '--', '.'])
+        subprocess.run(['git', '-C', REPO, 'checkout', '--', '.'])
